@@ -306,3 +306,28 @@ def shape_of(v: Val) -> Optional[List[Expr]]:
     if isinstance(v, Sc):
         return []
     return None
+
+
+# ----------------------------------------------------------------------------- families of per-position lists
+def is_bucket_family(v) -> bool:
+    """[[] for _ in range(n)] and what derives from it: a list of lists, one per position, filled by appends"""
+    return isinstance(v, Arr) and v.kind == "list" and v.ndim == 2 and v.axes[1][0].concrete == 0
+
+
+def bucket_root(v):
+    return getattr(v, "bucket_root", None) or v
+
+
+def bucket_handle(family, index: Expr, order=None) -> "ObjV":
+    if order is None:
+        order = getattr(family, "bucket_order", None)
+    return ObjV(None, dict(base=family, root=bucket_root(family), index=index, order=order), tag="bucket")
+
+
+def bucket_family_like(family, order) -> "Arr":
+    """the same buckets seen through `[sorted(b, ...) for b in family]`: a new list object over the same contents"""
+    f2 = Arr([(sp, fresh()) for sp, _ in family.axes], family.elem, "list")
+    f2.bucket_root = bucket_root(family)
+    f2.bucket_order = order
+    f2.bucket_sorted_over = "all"
+    return f2
